@@ -1078,7 +1078,15 @@ fn run_model(bytes: &[u8], opt: bool, owned: bool, in_names: &[String], ins: &[T
     let r = hcommon::catch(move || -> String {
         let model = match ModelOptions::with_all_ops().enable_optimization(opt).load(bytes) {
             Ok(m) => m,
-            Err(e) => return format!("err:load {}", e.to_string().replace(['\n', '\t'], " ")),
+            Err(e) => {
+                let m = e.to_string().replace(['\n', '\t'], " ");
+                // a zero-iteration loop with scan outputs whose inputs are constants is run by
+                // constant propagation at load time: same deviation, reported at load.
+                if m.contains("outputs but expected") {
+                    return "err:output_mismatch".into();
+                }
+                return format!("err:load {m}");
+            }
         };
         let tensors: Vec<RTensor<i32>> = ins.iter().map(to_rt).collect();
         let mut inputs = Vec::new();
